@@ -454,6 +454,14 @@ func (e fuErrStr) String() string { return "str:" + e.s }
 type fuDurLike time.Duration // not time.Duration itself: falls to Stringer / reflection
 func (d fuDurLike) String() string { return "durlike" }
 
+// fuNilSafeErr: a nil *fuNilSafeErr is a usable error (its Error method does not touch the receiver)
+type fuNilSafeErr struct{ code int }
+
+func (e *fuNilSafeErr) Error() string { return "not found" }
+
+type fuSecret string
+type fuCount int
+
 type fuObjPtr struct{ v int }
 
 func (o *fuObjPtr) MarshalLogObject(e zapcore.ObjectEncoder) error { e.AddInt("v", o.v); return nil }
@@ -765,6 +773,19 @@ func fuStructured(x *fuCtx) {
 	e := errors.New("boom")
 	one("Error", zap.Error(e), []recCall{{M: "AddString", K: "error", V: "boom"}})
 	one("NamedError", zap.NamedError("k", e), []recCall{{M: "AddString", K: "k", V: "boom"}})
+	// a typed nil pointer whose Error method works on nil is an ordinary error value: its message is delivered
+	one("NamedError(nil-safe typed nil)", zap.NamedError("k", (*fuNilSafeErr)(nil)), []recCall{{M: "AddString", K: "k", V: "not found"}})
+	one("Any(nil-safe typed nil error)", zap.Any("k", (*fuNilSafeErr)(nil)), []recCall{{M: "AddString", K: "k", V: "not found"}})
+	one("Errors(nil-safe typed nil)", zap.Errors("k", []error{(*fuNilSafeErr)(nil)}), []recCall{{M: "AddArray", K: "k", Sub: []recCall{{M: "AppendObject", Sub: []recCall{{M: "AddString", K: "error", V: "not found"}}}}}})
+	// types without a typed constructor fall back to reflection, with their dynamic type intact
+	for _, v := range []interface{}{fuSecret("hunter2"), fuCount(7), map[int]string{1: "a"}, &fuObj{1}, [][]byte{{1}}, [2]int{1, 2}, struct{ S fuSecret }{"x"}} {
+		f := zap.Any("k", v)
+		calls, _ := record(f)
+		x.n++
+		if f.Type != zapcore.ReflectType || len(calls) != 1 || calls[0].M != "AddReflected" || !reflect.DeepEqual(calls[0].V, v) || reflect.TypeOf(calls[0].V) != reflect.TypeOf(v) {
+			x.bad("C03/any-differs:Reflect", "zap.Any(%T) has no typed constructor and must fall back to reflection with the value as given; got field type %v delivering %s", v, f.Type, showCalls(calls))
+		}
+	}
 	one("Object", zap.Object("k", fuObj{7}), []recCall{{M: "AddObject", K: "k", Sub: []recCall{{M: "AddInt", K: "a", V: 7}}}})
 	one("Inline", zap.Inline(fuObj{7}), []recCall{{M: "AddInt", K: "a", V: 7}})
 	one("Dict", zap.Dict("k", zap.Int64("a", 1), zap.String("b", "x")), []recCall{{M: "AddObject", K: "k", Sub: []recCall{{M: "AddInt64", K: "a", V: int64(1)}, {M: "AddString", K: "b", V: "x"}}}})
